@@ -3,7 +3,11 @@ KERNELS = {'C07_wiring': dict(src='kernels/C07_wiring.cpp', flags=['-DNDEBUG']),
            # exp2(int) would otherwise be rewritten by clang into ldexp(1.0, n): keep the library call the source makes
            'C07_leaf_flt': dict(src='kernels/C07_leaf_flt.cpp', flags=['-DNDEBUG', '-fno-builtin-exp2', '-fno-builtin-exp2f']),
            'C07_leaf_act': dict(src='kernels/C07_leaf_act.cpp', flags=['-DNDEBUG']),
-           'C07_types': dict(src='kernels/C07_types.cpp', flags=['-DNDEBUG'])}
+           'C07_types': dict(src='kernels/C07_types.cpp', flags=['-DNDEBUG']),
+           # the "dtype" family: one source built per part so that a query only parses the kernels it calls
+           'C07_dtype_outer': dict(src='kernels/C07_dtype.cpp', flags=['-DNDEBUG', '-DDT_PART=1']), 'C07_dtype_bin': dict(src='kernels/C07_dtype.cpp', flags=['-DNDEBUG', '-DDT_PART=2']),
+           'C07_dtype_cmp': dict(src='kernels/C07_dtype.cpp', flags=['-DNDEBUG', '-DDT_PART=3']), 'C07_dtype_mix': dict(src='kernels/C07_dtype.cpp', flags=['-DNDEBUG', '-DDT_PART=4']),
+           'C07_dtype_gen': dict(src='kernels/C07_dtype.cpp', flags=['-DNDEBUG', '-DDT_PART=5'])}
 
 # ---------------------------------------------------------------- (a) wiring per arity
 def _c(e, **kw):
@@ -104,6 +108,77 @@ HARNESSES += [dict(name='ty_' + n, src='harnesses/C07_types.c', func='h_ty_' + n
 HARNESSES += [dict(name='ty_outer_dtype', src='harnesses/C07_types.c', func='h_ty_outer_dtype', kernels=['C07_types'], unwind=2, quick=[{}], thorough=[{}],
                    bounds='TYPE LEVEL: element type of outer_subtract(int8, int32) without and with an explicit dtype (float32, int64, uint8)')]
 
+# ---------------------------------------------------------------- (d) "dtype" family: element type / requested dtype, value in that type (lists mirror harnesses/C07_dtype.def)
+def _dc(part, e=3, **kw):
+    n = e * e + 2
+    c = {'MAXE': e, 'PART_' + part.upper(): 1, '_unwindset': ['re:^k_fill_:%d' % n, 're:^h_dtype_:%d' % n, 'bcast2.0:5', 'bsrc.0:5']}
+    c.update(kw); return c
+def _d(part, name, bounds, quick=None, thorough=None, **kw):
+    # nmtools loops here run over dims (<= 2) and index packs (<= 2): global unwind 4 for the broadcast families (unwinding assertions stay on), 8 elsewhere
+    return dict(name='dtype_' + name, src='harnesses/C07_dtype.c', func='h_dtype_' + name, kernels=['C07_dtype_' + part], unwind=kw.pop('unwind', 4 if part in ('bin', 'cmp', 'mix') else 8), bounds=bounds,
+                quick=[_dc(part, 3)] if quick is None else quick, thorough=[_dc(part, 4)] if thorough is None else thorough, **kw)
+UFQ = {'LL_UF_FLOAT': 1}
+DTN = ['none', 'int8', 'uint8', 'int16', 'int32', 'uint32', 'int64', 'float32', 'float64']
+def _per_dt(part, e): return [_dc(part, e, ONLY_DT=k) for k in range(len(DTN))]
+# broadcast families: operand shapes are per-query constants (a (SA0,SA1) or (SA1,), b (SB0,)); quick (2,3)x(3,), thorough adds (3,4)x(4,) and the doubly stretched (3,1)x(4,)
+BQ = dict(SA0=2, SA1=3, SB0=3)
+BT = [dict(SA0=2, SA1=3, SB0=3), dict(SA0=3, SA1=4, SB0=4), dict(SA0=3, SA1=1, SB0=4), dict(SA0=2, SA1=3, SB0=1)]
+def _bq(part, **kw): return [_dc(part, 3, **dict(BQ, **kw))]
+def _bt(part, **kw): return [_dc(part, 4, **dict(b, **kw)) for b in BT]
+BSYM = 'operand shapes per-query constants (quick (2,3)x(3,); thorough adds (3,4)x(4,), (3,1)x(4,), (2,3)x(1,); 1-d left operands use the second extent), every element (whole range of its type unless stated) and the result index symbolic; '
+DSYM = 'operand lengths / extents 1..MAXE, every element (whole range of its type) and the result index symbolic; '
+DTS = 'dtype in {none, int8, uint8, int16, int32, uint32, int64, float32, float64} (one query per dtype)'
+HARNESSES += [_d('outer', 'outer_%s_%s_%s' % g, 'view::outer_%s(%s[n], %s[m], dtype) for every %s: declared element type, type returned by operator(), element (i,j) == (dtype)(a[i] op b[j]); ' % (g + (DTS,)) + DSYM,
+                 quick=_per_dt('outer', 3), thorough=_per_dt('outer', 4), **(dict(backend='kissat') if g[0] == 'multiply' else {}))
+              for g in [('add', 'u8', 'i8'), ('add', 'i16', 'u8'), ('subtract', 'u8', 'u8'), ('subtract', 'i8', 'i16'), ('multiply', 'i8', 'u8')]]
+TN = dict(i8='int8', u8='uint8', i16='int16', i32='int', u32='unsigned', i64='long', f32='float', f64='double', none='none')
+HARNESSES += [_d('outer', 'outer_%s_%s_%s' % g, 'view::outer_%s(%s[n], %s[m], dtype) for dtype in {none, uint8, int64, float32} (one query per dtype): the C result type of a shift is the promoted LEFT type only; element == (dtype)(a[i] op b[j]); '
+                 'shift counts 0 <= s < width of the promoted left type, left shifts only of non-negative values whose result fits; ' % g + DSYM,
+                 quick=[_dc('outer', 3, ONLY_DT=k) for k in (0, 2, 6, 7)], thorough=[_dc('outer', 4, ONLY_DT=k) for k in (0, 2, 6, 7)])
+              for g in [('left_shift', 'u8', 'i64'), ('right_shift', 'i64', 'u8')]]
+HARNESSES += [
+ _d('outer', 'outer_wide', 'view::outer_add / outer_subtract(unsigned[n], unsigned[m], dtype=int64) and outer_add(..., dtype=float64): element type == dtype; element == (dtype)a[i] op (dtype)b[j] as NumPy combines IN the requested dtype; '
+    'region of the pending finding (the 32-bit operation wraps) excluded; ' + DSYM, quick=[_dc('outer', 3, KF_C07_DTYPE_WIDE=1)], thorough=[_dc('outer', 4, KF_C07_DTYPE_WIDE=1)]),
+ _d('outer', 'outer_flt_a', 'view::outer_add(float[n], int16[m], dtype=float32): element type float, element == a[i] + (float)b[j], one IEEE addition (quick: LL_UF_FLOAT=1 - precision, operand conversion and order; thorough adds the bit-exact query, any NaN == any NaN); ' + DSYM, quick=[_dc('outer', 3, **UFQ)], thorough=[_dc('outer', 4, **UFQ), _dc('outer', 3, _timeout=1800)], backend='kissat'),
+ _d('outer', 'outer_flt_b', 'view::outer_subtract(double[n], float[m], dtype=float64): element type double, element == a[i] - (double)b[j] (quick: LL_UF_FLOAT=1; thorough adds bit-exact); ' + DSYM, quick=[_dc('outer', 3, **UFQ)], thorough=[_dc('outer', 4, **UFQ), _dc('outer', 3, _timeout=1800)], backend='kissat'),
+ _d('outer', 'outer_flt_c', 'view::outer_add(uint8[n], float[m], dtype=float64): element type double, element == (double)((float)a[i] + b[j]) (the nmtools form: combined in the operands\' common type, then converted; quick: LL_UF_FLOAT=1; thorough adds bit-exact); ' + DSYM, quick=[_dc('outer', 3, **UFQ)], thorough=[_dc('outer', 4, **UFQ), _dc('outer', 3, _timeout=1800)], backend='kissat'),
+]
+HARNESSES += [_d('bin', 'bin_%s_%s_%s' % g, 'view::broadcast_binary_ufunc(view::%s_t<none_t,none_t,T>{}, %s 2-d, %s 1-d) - the functor carrying a requested result type T, as reduce_/outer_/accumulate_<op> build it from a dtype - for every ' % g
+                 + DTS + ' (quick tier: all nine for add, {none, uint8, int64, float32} for subtract / multiply)' + ': accepted iff broadcastable, broadcast shape, declared element type, type returned by operator(), element == (T)(a[bcast i] op b[bcast i]); ' + BSYM,
+                 quick=[_dc('bin', 3, ONLY_DT=k, **BQ) for k in (range(len(DTN)) if g[0] == 'add' else (0, 2, 6, 7))], thorough=[_dc('bin', 4, ONLY_DT=k, **b) for k in range(len(DTN)) for b in BT], **(dict(backend='kissat') if g[0] == 'multiply' else {}))
+              for g in [('add', 'u8', 'i8'), ('subtract', 'i16', 'u8'), ('multiply', 'i8', 'i8')]]
+HARNESSES += [_d('bin', 'samekind_%s_%s' % g, 'view::%s(a 2-d, b 1-d, casting::SAME_KIND), both operands %s: element type stays the operands\' type (NumPy\'s result type for equal dtypes), element == (T)(a op b) i.e. modulo 2^bits (int operands: the sum must not overflow, undefined in C++); ' % (g[0], TN[g[1]]) + BSYM, quick=_bq('bin'), thorough=_bt('bin'), **(dict(backend='kissat') if g[0] == 'multiply' else {}))
+              for g in [('add', 'u8'), ('subtract', 'i16'), ('multiply', 'i8'), ('add', 'i32'), ('subtract', 'u32')]]
+HARNESSES += [_d('cmp', 'cmp_%s_%s' % g, 'view::less / less_equal / greater / greater_equal / equal / not_equal(%s[n], %s[m]) with 1-d broadcasting: element type bool, element == the C comparison under the usual arithmetic conversions '
+                 '(int vs unsigned compares as unsigned: -1 < 1u is false; long vs unsigned compares as long; long vs float compares as float); ' % (TN[g[0]], TN[g[1]]) + BSYM, quick=_bq('cmp'), thorough=_bt('cmp'))
+              for g in [('i32', 'u32'), ('u32', 'i32'), ('i8', 'u32'), ('i64', 'u32'), ('u8', 'i8'), ('i16', 'u32'), ('i16', 'f32')]]
+HARNESSES += [_d('cmp', 'cmp_i64_f32', 'the six comparison views on (long[n], float[m]): thorough tier only (long -> float conversion on both sides: 490 s measured)', quick=[], thorough=_bq('cmp', _timeout=1800))]
+HARNESSES += [_d('mix', 'mix_%s_%s_%s' % g, 'view::%s(%s 2-d, %s 1-d), no dtype: accepted iff broadcastable, element type == C result type of the two element types, element == a[bcast i] op b[bcast i] evaluated in that type%s; '
+                 % (g[0], TN[g[1]], TN[g[2]], ' (one IEEE operation; quick: LL_UF_FLOAT=1, i.e. + / - uninterpreted and shared with the reference - decides precision, operand conversions and order; thorough adds the bit-exact IEEE query, any NaN == any NaN)' if 'f' in g[1] + g[2] else ' (signed 64-bit results must not overflow, shift counts within the promoted left type, left shifts of non-negative values that fit: undefined in C++ otherwise; multiply: operands wider than 8 bits hold |value| < 2^7)') + BSYM,
+                 **(dict(quick=_bq('mix', **UFQ), thorough=_bt('mix', **UFQ) + _bq('mix', _timeout=1800), backend='kissat') if 'f' in g[1] + g[2] else dict(quick=_bq('mix'), thorough=_bt('mix'), **(dict(backend='kissat') if g[0] == 'multiply' else {}))))
+              for g in [('add', 'u8', 'i64'), ('subtract', 'u8', 'i64'), ('multiply', 'u8', 'i8'), ('add', 'i16', 'u32'), ('subtract', 'u32', 'i64'), ('subtract', 'i8', 'u8'), ('multiply', 'i8', 'i64'),
+                        ('bitwise_and', 'u8', 'i32'), ('bitwise_or', 'i16', 'u32'), ('bitwise_xor', 'i8', 'i64'), ('left_shift', 'u8', 'i64'), ('right_shift', 'i64', 'u8'), ('left_shift', 'i64', 'i8'),
+                        ('add', 'f32', 'i32'), ('subtract', 'i64', 'f32'), ('add', 'i32', 'f64'), ('subtract', 'f32', 'f64'), ('add', 'u8', 'f32')]]
+GSYM = 'shape (n, m) with n, m 1..MAXE and the result index symbolic; '
+HARNESSES += [
+ _d('gen', 'full', 'view::full(shape, value) for a fill value of each of the 8 element types: element type == the value\'s type, element == value (all values, NaN compared as NaN); ' + GSYM),
+ _d('gen', 'zeros_ones', 'view::zeros / view::ones(shape, dtype) for the 8 dtypes: element type == dtype, element == 0 / 1; ' + GSYM),
+ _d('gen', 'eye', 'view::eye(n, m, k, dtype) for the 8 dtypes (one query per dtype), n, m 1..MAXE, k in [-MAXE, MAXE], index symbolic: element type == dtype, element (i,j) == (j == i + k)',
+    quick=[_dc('gen', 3, ONLY_DT=k) for k in range(1, 9)], thorough=[_dc('gen', 4, ONLY_DT=k) for k in range(1, 9)]),
+ _d('gen', 'identity', 'view::identity(n, dtype) for the 8 dtypes (one query per dtype)', quick=[_dc('gen', 3, ONLY_DT=k) for k in range(1, 9)], thorough=[_dc('gen', 4, ONLY_DT=k) for k in range(1, 9)]),
+ _d('gen', 'arange_int', 'view::arange(start, stop, step, dtype) for dtype in {int8, uint8, int16, int32, uint32, int64} (one query per dtype): int start, stop in [-RNG, RNG], step in [-MAXSTEP, MAXSTEP] minus 0, non-empty grids of at most MAXLEN '
+    'elements (empty and > 2^24 grids are C04 findings), element index symbolic: length, declared element type == dtype, element i == (dtype)(start + i*step) (NumPy computes the elements in the dtype: modulo 2^bits)',
+    quick=[_dc('gen', 3, ONLY_DT=k, RNG=1000, MAXSTEP=3, MAXLEN=16, KF_C04_ARANGE_RETTYPE=1) for k in range(1, 7)], thorough=[_dc('gen', 3, ONLY_DT=k, RNG=100000, MAXSTEP=7, MAXLEN=64, KF_C04_ARANGE_RETTYPE=1) for k in range(1, 7)], finding_pid='C04'),
+ _d('gen', 'arange_flt', 'view::arange(start, stop, step, float32 / float64) and arange(start, stop, step) (default dtype float32) on the same integer grids: element type, element i == start + i*step (exact in float here)',
+    quick=[_dc('gen', 3, RNG=1000, MAXSTEP=3, MAXLEN=16, KF_C04_ARANGE_FLOAT_NEGSTEP=1)], thorough=[_dc('gen', 3, RNG=100000, MAXSTEP=7, MAXLEN=64, KF_C04_ARANGE_FLOAT_NEGSTEP=1)], finding_pid='C04'),
+]
+HARNESSES += [_d('gen', 'full_like_%s_%s_%s' % g, 'view::full_like(%s 2-d prototype, %s fill value, dtype=%s): shape of the prototype, element type == dtype (none: the prototype\'s), element == the fill value converted to it '
+                 '(all fill values; integer narrowing modulo 2^bits, integer -> floating rounds to nearest); ' % (TN[g[0]], TN[g[1]], TN[g[2]]) + GSYM + 'prototype data symbolic')
+              for g in [('i16', 'i64', 'none'), ('f32', 'i32', 'none'), ('i64', 'u8', 'none'), ('i8', 'u32', 'none'), ('u8', 'i32', 'f64'), ('i16', 'u8', 'i64'), ('f32', 'i64', 'i16'), ('u32', 'i8', 'none'), ('f64', 'i64', 'u8')]]
+HARNESSES += [_d('gen', 'zeros_ones_like_%s_%s' % g, 'view::zeros_like / ones_like(%s 2-d prototype, dtype=%s): shape of the prototype, element type == dtype (none: the prototype\'s), element 0 / 1; ' % (TN[g[0]], TN[g[1]]) + GSYM)
+              for g in [('u8', 'none'), ('i16', 'none'), ('f32', 'none'), ('i64', 'none'), ('f64', 'none'), ('u8', 'f64'), ('f32', 'i8'), ('i16', 'u32'), ('i64', 'f32')]]
+HARNESSES += [_d('gen', 'like_default', 'full_like(int16 a, long v), zeros_like(int16 a), ones_like(float a) with the dtype parameter defaulted: the prototype\'s element type, converted value; ' + GSYM)]
+
 PENDING_FINDINGS = [
  dict(id='C07-maximum-minimum-scalar-operand', harness='li_minmax', exclude_define='KF_C07_MINMAX_SCALAR', witness_inputs=['0x400040400000009f', '0x7fffff9f'],
       what='view::maximum / view::minimum with a SCALAR operand (either side) return the array operand\'s element type and convert the scalar to it: the scalar reaches '
@@ -118,6 +193,25 @@ PENDING_FINDINGS = [
       witness_inputs=['0x1', '0x0', '0x0', '0x0', '0x0', '0x0', '0x0', '0x2000000000000', '0x0', '0x2', '0x2', '0x0'], witness_config={'MAXE': 3},
       what='view::where(condition, x int[n], y long scalar): where_t::operator() evaluates `c ? x[i] : y` with y a num-view object, which converts y to int before the cast to the '
            'element type long: where([0],[0], 0x2000000000000)(0) == 0, NumPy: 562949953421312. Natively also where([0,1],[10,20],2.5) == [2.0, 20.0] (NumPy [2.5, 20.0]).'),
+ # ---- "dtype" family (the exclusion macros are in the configurations in a temporary way; the runner takes them from known_findings.json only)
+ dict(id='C07-dtype-applied-after-operation', harness='dtype_outer_wide', exclude_define='KF_C07_DTYPE_WIDE',
+      witness_inputs=['0x1', '0x1', '0xffffffff', '0x0', '0x0', '0x1', '0x0', '0x0', '0x0', '0x0'], witness_config={'MAXE': 3, 'PART_OUTER': 1},
+      what='an explicitly requested dtype is applied AFTER the operation, not to the operands: the functor op_t<none_t,none_t,res_t> built from the dtype (add.hpp / subtract.hpp / multiply.hpp ...: '
+           '`operator()(t, u) -> res_t { return t + u; }`) evaluates t op u in the operands\' common type and converts the result. view::outer_add(unsigned[1]{4294967295}, unsigned[1]{1}, nm::int64)(0,0) == 0 '
+           '(NumPy np.add.outer(a, b, dtype=np.int64): 4294967296), outer_subtract(unsigned{0}, unsigned{1}, int64) == 4294967295 (NumPy: -1), outer_add(..., float64) == 0.0 (NumPy 4294967296.0); the same functor '
+           'serves reduce_/accumulate_<op> (there the accumulator already has the dtype, see C08). Region: a op b wraps (or overflows) in the operands\' common type although it is representable in the dtype. '
+           'Solver witness: a = [9, 180237], b = [326830, 4294787073], element (1,1): 14 instead of 4294967310.'),
+ dict(id='C04-arange-float-negative-step', property='C04', harness='dtype_arange_flt', exclude_define='KF_C04_ARANGE_FLOAT_NEGSTEP',
+      witness_inputs=['0x5', '0x0', '0xffffffffffffffff', '0x1'], witness_config={'MAXE': 3, 'PART_GEN': 1, 'RNG': 1000, 'MAXSTEP': 3, 'MAXLEN': 16},
+      what='view::arange with a floating dtype (float32 is the DEFAULT dtype) and a negative step: arange_t::operator() computes static_cast<T>(start) + (index * step) (arange.hpp) with an unsigned index, so '
+           'index*step wraps to 2^64 - i*|step| before it is converted to float: view::arange(5, 0, -1) == [5, 1.8446744e19, 1.8446744e19, ...] (NumPy [5. 4. 3. 2. 1.]); array::eval of the view gives the same. '
+           'Region: floating dtype and step < 0, elements i >= 1. (Integer dtypes are unaffected once the value is converted back to the dtype: modular arithmetic.)'),
+ dict(id='C04-arange-element-not-in-dtype', property='C04', harness='dtype_arange_int', exclude_define='KF_C04_ARANGE_RETTYPE',
+      witness_inputs=['0xfa', '0x104', '0x1', '0x6'], witness_config={'MAXE': 3, 'PART_GEN': 1, 'RNG': 1000, 'MAXSTEP': 3, 'MAXLEN': 16},
+      what='view::arange(start, stop, step, dtype): the declared element type is the dtype but operator() returns static_cast<T>(start) + index*step in the common type of T, the index and the step '
+           '(size_t for a size_t index), never converted back to T: arange(250, 260, 1, nm::uint8)(6) == 256 with element type uint8 (NumPy 1.x: 0; NumPy 2 raises); '
+           'for int8/int16/int32/int64 the returned type is unsigned long. Under the macro the harness compares the element after conversion to the dtype (which is what array::eval stores) and drops the '
+           'returned-type assertion (type level: every input).'),
 ]
 OUTSIDE = [
  'view::clip(array, amin, amax) does not compile for hybrid or fixed-shape operands (view::where is handed a maybe-typed condition; the repo\'s clip tests are disabled in tests/*/CMakeLists.txt); '
@@ -127,6 +221,10 @@ OUTSIDE = [
  'numerical accuracy of transcendental functions (uninterpreted), bit-exact IEEE rounding of / (float: no verdict in 600 s with kissat; double: not attempted beyond 100 s toy queries) and of double * (44 s in isolation with z3, no verdict inside a kernel query); float *, float/double + - are decided bit-exactly in the thorough tier; fmod (uninterpreted)',
  'signed integer multiplication with |operand| >= 2^7 (no verdict: > 100 s per dtype pair), signed overflow / division by zero / out-of-range shifts (undefined in C++)',
  'relu(NaN) == 0 in nmtools (PyTorch propagates NaN); maximum/minimum follow `t > u ? t : u` for NaN (np.maximum propagates NaN): the reference here is the C expression',
+ 'dtype family: view::add / subtract / multiply take NO dtype argument (third parameter is a casting kind: AUTO / SAME_KIND, EQUIV unimplemented) - the requested result type is exercised through the functor '
+ 'op_t<none_t,none_t,T> with broadcast_binary_ufunc and through outer_<op>(a, b, dtype); bitwise_and/or/xor, comparisons and every unary ufunc have no dtype / result-type parameter at all; view::cast / astype does not exist; '
+ 'outer_fmax/fmin/fmod/power/maximum/minimum with dtype (same outer_t + functor pattern) not instantiated; float operands with a dtype other than their C result type (NumPy would compute in the dtype: different rounding, no single-operation reference); '
+ 'float multiply / divide; 32-bit signed operands with a wider dtype (the C operation overflows: undefined); uint16 / uint64 dtypes; eye/identity with the default dtype; linspace; reduce / accumulate with dtype (C08)',
  'deg2rad / degrees / rad2deg / radians (view::multiply with a constant), amax / amin (C08); int16/uint16 dtypes, long double, complex; array::<ufunc> (eager evaluation: C04/C10)',
 ]
 ASSUMPTIONS = ['transcendental libm functions, fmod and (in LL_UF_FLOAT queries) IEEE + - * / are uninterpreted functions shared by the kernel and the reference',
@@ -137,5 +235,8 @@ CLAIM = dict(
       'view::where (three operands) likewise; outer_subtract has shape(a)+shape(b) and element a[i]-b[j]. '
       '(b) 27 integer functors x 13 dtype pairs and the float/double functors (arithmetic, comparison, logical, rounding, predicates, fmax/fmin, 9 piecewise activations) equal the C expression on all '
       'inputs of the stated domains; 27 transcendental functors and 9 exp-based activations call the right library function on the right arguments (uninterpreted). '
-      '(c) The declared element type equals C\'s usual arithmetic conversions for the full 7x7 dtype matrix. Two defects found and excluded as pending findings (scalar operand of maximum/minimum/where).',
+      '(c) The declared element type equals C\'s usual arithmetic conversions for the full 7x7 dtype matrix. Two defects found and excluded as pending findings (scalar operand of maximum/minimum/where). '
+      '(d) dtype family, symbolic data and index: outer_add/subtract/multiply/shift and the result-type-carrying functors have the requested dtype as declared and returned element type and element (dtype)(a op b) for all 9 dtypes on 8/16-bit operands; '
+      'SAME_KIND keeps the operand type; comparisons of mixed signed/unsigned/float arrays are bool with C\'s conversions; mixed-type binary views under broadcasting use the C common type; full/zeros/ones/eye/identity/arange/*_like have the requested '
+      '(or prototype / fill value) element type and the converted value. Three defects found (dtype applied after the operation; arange with float dtype and negative step; arange elements not converted to the dtype).',
  note='Bounded as listed per harness. Trusted: clang-14 -O1 lowering, engine/ll2c.py, CBMC, z3/kissat; validated per run by the differential gate and witness assertions.')
